@@ -181,8 +181,11 @@ def scorer_configs():
     L2 = S("L2Cost", param=None)
     return [
         Cfg("L2Cost/plain", S("L2Cost", param=None), ("plain", {"param": 1.5})),
-        Cfg("GaussianVarCost/plain", S("GaussianVarCost", param=None), ("plain", {"param": (0.0, 2.0)})),
-        Cfg("GaussianCovCost/plain", S("GaussianCovCost", param=None), ("plain", {"param": (0.0, 1.0)})),
+        Cfg("GaussianVarCost/plain", S("GaussianVarCost", param=None), ("plain", {"param": (0.75, 2.0)})),
+        Cfg("GaussianCovCost/plain", S("GaussianCovCost", param=None), ("plain", {"param": (1.5, 1.0)})),
+        # fixed parameters with a NON-ZERO mean from the start (a scorer that centres / rescales the caller's buffer in place is a no-op at 0)
+        Cfg("GaussianCovCost/fixed-nonzero-mean", S("GaussianCovCost", param=(1.5, 2.0)), ("plain", {"param": None})),
+        Cfg("GaussianVarCost/fixed-nonzero-mean", S("GaussianVarCost", param=(-1.25, 2.0)), ("plain", {"param": None})),
         Cfg("L2Cost/array-param", S("L2Cost", param=np.array([0.5])), ("plain", {"param": np.array([1.5])})),
         Cfg("GaussianVarCost/array-param", S("GaussianVarCost", param=None), ("plain", {"param": (np.array([0.0]), np.array([2.0]))})),
         Cfg("CUSUM", S("CUSUM"), None),
